@@ -12,6 +12,15 @@ CLAIMS = {
  'C25': dict(cat='other', ref='DESIGN.md §2 C25',
    text='GUARDED_BY lockset analysis for usagecnt/usagelmt/retained (bucket lock held on all paths, fresh-allocation exception), free-after-remove and reclaim-guard (limit == post-value of count AND not retained) dominance rules, lock pairing on all exits, retain/release counting per path in datarepo.c.',
    tech='lockset typestate + dominator rules + per-path counting over clang CFG'),
+ 'C29': dict(cat='other', ref='DESIGN.md §2 C29',
+   text='Ordering and guard clauses on the three future kinds: CAS-guarded single completion with wmb/rmb order (base), completion on the post-value == 0 of a single fetch_dec (countable), test-and-set of TRIGGERED inside one future_lock critical section and fulfilment only for the thread that found it unset, nested list under the lock with pairing on all exits (data-copy).',
+   tech='dominating-guard / must-precede rules + lockset typestate over clang CFG'),
+ 'C15': dict(cat='other', ref='DESIGN.md §2 C15',
+   text='Structural rules on compound.c: startup enqueues only member 0; the completion callback enqueues exactly member (old counter)+1 and only while the returned runtime-action count is positive; callback installed on every member by a full-range loop; compose keeps order and NULL-terminates; nobody else enqueues members.',
+   tech='path-sensitive value-flow + loop-shape and who-may-call rules over clang AST/CFG'),
+ 'C06': dict(cat='other', ref='DESIGN.md §2 C06',
+   text='Loop-exit-edge dominance for taskpool_wait/context_wait returns, frozen who-may-write table for active_taskpools (whole-program scan in the thorough tier), callback-before-decrement / increment-before-startup ordering, post-value test in context_wait, single caller of on_complete.',
+   tech='edge-cut reachability on the CFG + whole-program field-effect scan + ordering rules'),
 }
 
 NOT_APPLICABLE = {
